@@ -10,7 +10,7 @@ from checks import _bc
 PROPERTY = "C06"
 replay = _bc.replay
 
-RULE = ("alphabet: makeRequest (reply / no-reply, fresh ids), re-use of an in-flight id, cancel of any pending "
+RULE = ("alphabet: makeRequest (reply / no-reply, fresh ids), re-use of an in-flight id or of a cancelled id whose reply can still arrive, cancel of any pending "
         "request, broker frames for any id it has seen (in any order, duplicates) and for an unknown id (99), a frame "
         "announcing 2^31 bytes, delivery of the whole buffer or of 1/3/4/6/len-1 bytes (inside the prefix, at its "
         "boundary, inside the body, across frames), accept/refuse of connection attempts, drop, clean close, timers, "
